@@ -417,7 +417,9 @@ func (ps *PathSim) exec(fn *ssa.Function, st *pstate, ins ssa.Instruction) {
 	case *ssa.FieldAddr:
 		st.env[x] = &Sym{K: sFieldAddr, A: ps.sym(st, x.X), Str: fieldName(x.X.Type(), x.Field), T: x.Type(), V: x}
 	case *ssa.Field:
-		st.env[x] = &Sym{K: sField, A: ps.sym(st, x.X), Str: fieldName(x.X.Type(), x.Field), T: x.Type(), V: x}
+		fs := mkField(ps.sym(st, x.X), fieldName(x.X.Type(), x.Field))
+		fs.T, fs.V = x.Type(), x
+		st.env[x] = fs
 	case *ssa.IndexAddr:
 		st.env[x] = &Sym{K: sIndexAddr, A: ps.sym(st, x.X), B: ps.sym(st, x.Index), T: x.Type(), V: x}
 	case *ssa.Index:
@@ -460,7 +462,11 @@ func (ps *PathSim) exec(fn *ssa.Function, st *pstate, ins ssa.Instruction) {
 		case token.EQL, token.NEQ, token.LSS, token.LEQ, token.GTR, token.GEQ:
 			st.env[x] = &Sym{K: sCmp, Op: x.Op, A: a, B: b, T: x.Type(), V: x}
 		default:
-			st.env[x] = &Sym{K: sBin, Op: x.Op, A: a, B: b, T: x.Type(), V: x}
+			if (x.Op == token.ADD || x.Op == token.SUB) && a.K == sConst && b.K == sConst && a.C != nil && b.C != nil && a.C.Kind() == constant.Int && b.C.Kind() == constant.Int {
+				st.env[x] = &Sym{K: sConst, C: constant.BinaryOp(a.C, x.Op, b.C), T: x.Type()}
+			} else {
+				st.env[x] = &Sym{K: sBin, Op: x.Op, A: a, B: b, T: x.Type(), V: x}
+			}
 		}
 	case *ssa.TypeAssert:
 		a := ps.sym(st, x.X)
@@ -541,6 +547,9 @@ func localPath(addr *Sym) (*ssa.Alloc, []string, bool) {
 			path = append([]string{"[" + addr.B.Key() + "]"}, path...)
 		}
 		addr = addr.A
+		if addr != nil && addr.K == sSlice && addr.Str == ":" {
+			addr = addr.A // arr[:] of a local array: same cells
+		}
 	}
 	if addr == nil || addr.K != sFresh {
 		return nil, nil, false
@@ -563,12 +572,31 @@ func getPath(v *Sym, path []string) *Sym {
 				// zero field: type unknown here
 				return &Sym{K: sStruct, A: nil, F: map[string]*Sym{}, Str: "zero." + f}
 			}
-			v = &Sym{K: sField, A: v.A, Str: f}
+			v = mkField(v.A, f)
 			continue
 		}
-		v = &Sym{K: sField, A: v, Str: f}
+		v = mkField(v, f)
 	}
 	return v
+}
+
+// isFieldOfValue: s is field `name` of some struct value (either canonical form).
+func isFieldOfValue(s *Sym, name string) bool {
+	if s == nil {
+		return false
+	}
+	if s.K == sField && s.Str == name {
+		return true
+	}
+	return s.K == sLoad && s.A != nil && s.A.K == sFieldAddr && s.A.Str == name
+}
+
+// mkField: field f of struct value v; a field of a loaded struct is the load of the field's address (one canonical form).
+func mkField(v *Sym, f string) *Sym {
+	if v != nil && v.K == sLoad {
+		return &Sym{K: sLoad, A: &Sym{K: sFieldAddr, A: v.A, Str: f}}
+	}
+	return &Sym{K: sField, A: v, Str: f}
 }
 
 func setPath(v *Sym, path []string, val *Sym) *Sym {
@@ -677,6 +705,9 @@ func (ps *PathSim) execCall(fn *ssa.Function, st *pstate, ci ssa.CallInstruction
 			s = &Sym{K: sNewErr, V: val, T: val.Type()}
 		} else if b, ok := com.Value.(*ssa.Builtin); ok && b.Name() == "len" && len(ev.Args) == 1 {
 			s = &Sym{K: sLen, A: ev.Args[0], T: val.Type(), V: val}
+			if n, ok := staticLen(com.Args[0].Type(), ev.Args[0]); ok {
+				s = &Sym{K: sConst, C: constant.MakeInt64(n), T: val.Type()}
+			}
 		} else {
 			s = &Sym{K: sCall, V: val, T: val.Type(), iter: st.iters[val]}
 		}
@@ -687,6 +718,25 @@ func (ps *PathSim) execCall(fn *ssa.Function, st *pstate, ci ssa.CallInstruction
 	if ps.OnEvent != nil {
 		ps.OnEvent(st, &st.events[len(st.events)-1])
 	}
+}
+
+// staticLen: the length of an array value, a pointer to an array, or arr[:] of a local array.
+func staticLen(t types.Type, s *Sym) (int64, bool) {
+	u := t.Underlying()
+	if p, ok := u.(*types.Pointer); ok {
+		u = p.Elem().Underlying()
+	}
+	if a, ok := u.(*types.Array); ok {
+		return a.Len(), true
+	}
+	if s != nil && s.K == sSlice && s.Str == ":" && s.A != nil && s.A.T != nil {
+		if p, ok := s.A.T.Underlying().(*types.Pointer); ok {
+			if a, ok := p.Elem().Underlying().(*types.Array); ok {
+				return a.Len(), true
+			}
+		}
+	}
+	return 0, false
 }
 
 func isReflectValue(t types.Type) bool { return namedIs(t, "reflect", "Value") }
@@ -777,9 +827,11 @@ func evalBool(st *pstate, b *Sym) (bool, bool) {
 				return eq, true
 			}
 		}
-		// ordered comparisons of constants
-		if b.A.K == sConst && b.B.K == sConst && b.A.C != nil && b.B.C != nil {
-			return constant.Compare(b.A.C, b.Op, b.B.C), true
+		// ordered comparisons of constants (through conversions, and of values known equal to a constant)
+		if ca, oka := constValue(st, b.A); oka {
+			if cb, okb := constValue(st, b.B); okb && b.Op != token.EQL && b.Op != token.NEQ {
+				return constant.Compare(ca, b.Op, cb), true
+			}
 		}
 	}
 	if v, ok := st.facts[b.Key()]; ok {
@@ -788,11 +840,66 @@ func evalBool(st *pstate, b *Sym) (bool, bool) {
 	return false, false
 }
 
+// constValue: the integer constant a sym is (known to be equal to) on this path.
+func constValue(st *pstate, s *Sym) (constant.Value, bool) {
+	for s != nil && s.K == sConvert {
+		s = s.A
+	}
+	if s == nil {
+		return nil, false
+	}
+	if s.K == sConst && s.C != nil && s.C.Kind() == constant.Int {
+		return s.C, true
+	}
+	if c, ok := st.eqc[s.Key()]; ok && strings.HasPrefix(c, "const(") {
+		var v int64
+		if _, err := fmt.Sscanf(c, "const(%d)", &v); err == nil && c == fmt.Sprintf("const(%d)", v) {
+			return constant.MakeInt64(v), true
+		}
+	}
+	return nil, false
+}
+
 func typeMatches(dyn, asserted types.Type) bool {
 	if _, ok := asserted.Underlying().(*types.Interface); ok {
 		return types.Implements(dyn, asserted.Underlying().(*types.Interface))
 	}
 	return types.Identical(dyn, asserted)
+}
+
+func isBoolSym(s *Sym) bool {
+	if _, ok := s.BoolConst(); ok {
+		return true
+	}
+	switch s.K {
+	case sNot, sCmp, sTAOk:
+		return true
+	}
+	if s.T != nil {
+		if b, ok := s.T.Underlying().(*types.Basic); ok && b.Kind() == types.Bool {
+			return true
+		}
+	}
+	return false
+}
+
+// evalBoolNoEq: evalBool without descending into a bool==bool comparison of the same pair (no infinite regress)
+func evalBoolNoEq(st *pstate, b *Sym) (bool, bool) {
+	if b.K == sCmp && (b.Op == token.EQL || b.Op == token.NEQ) && isBoolSym(b.A) && isBoolSym(b.B) {
+		if v, ok := st.facts[b.Key()]; ok {
+			return v, true
+		}
+		va, oka := evalBoolNoEq(st, b.A)
+		vb, okb := evalBoolNoEq(st, b.B)
+		if oka && okb {
+			if b.Op == token.EQL {
+				return va == vb, true
+			}
+			return va != vb, true
+		}
+		return false, false
+	}
+	return evalBool(st, b)
 }
 
 func definitelyNonNil(s *Sym) bool {
@@ -806,6 +913,14 @@ func definitelyNonNil(s *Sym) bool {
 func evalEq(st *pstate, a, b *Sym) (bool, bool) {
 	if a.Key() == b.Key() {
 		return true, true
+	}
+	// equality of two booleans: decide through their truth values when both are known
+	if isBoolSym(a) && isBoolSym(b) {
+		if va, oka := evalBoolNoEq(st, a); oka {
+			if vb, okb := evalBoolNoEq(st, b); okb {
+				return va == vb, true
+			}
+		}
 	}
 	if a.K == sConst && b.K == sConst {
 		if a.C == nil || b.C == nil {
